@@ -17,6 +17,7 @@ pub fn is_nonlocation_debug(opcode: spirv::Op) -> bool {
             | spirv::Op::Name
             | spirv::Op::MemberName
             | spirv::Op::String
+            | spirv::Op::ModuleProcessed
     )
 }
 
